@@ -90,6 +90,20 @@ theorem step_read (c : Conn) (tag : String) :
   simp only [step]
   rfl
 
+theorem step_read_cases' (c : Conn) (tag : String) :
+    step c (.read tag) = (c, .readRes none) ∨ step c (.read tag) = (c, .readAgain) ∨
+    ∃ e r, step c (.read tag) = (updReq c tag markRead, .readRes (some (e, r))) := by
+  rw [step_read]
+  cases getReq c tag with
+  | none => left; rfl
+  | some q =>
+    cases hrd : q.read with
+    | true => right; left; simp [hrd]
+    | false =>
+      cases he : q.errBuf with
+      | none => left; simp [hrd, he]
+      | some e => right; right; exact ⟨e, q, by simp [hrd, he]⟩
+
 theorem step_close (c : Conn) : step c .close = if c.stuck then (c, .stuck) else (die c, .dead) := by
   simp only [step]
 
